@@ -122,7 +122,7 @@ func runC10(rc *RunCtx) {
 	scn := &Scenario{Name: "c10", Genesis: harness.BuildGenesis(c10Genesis()), T0: harness.T0, Events: c10Events(rc.Thorough()), BlockPanicProperty: "C10"}
 	depth, budget, maxTraces := 4, 120*time.Second, 1500
 	if rc.Thorough() {
-		depth, budget, maxTraces = 5, 25*time.Minute, 20000
+		depth, budget, maxTraces = 6, 25*time.Minute, 20000
 	}
 	res := runScenarioCheck(rc, scn, depth, budget, maxTraces, "")
 	panics := 0
